@@ -533,6 +533,26 @@ def rule_call_semantics(ctx, ix):
                     got = list(val)
                     if len(got) != len(formats) or any(g is not w for g, w in zip(got[1:], want[1:])):
                         problems.append("kernel arguments are not (output, inputs in the order of problem.formats)")
+                    # the output struct: freshly allocated with the output format's modes and ordering and,
+                    # per target dimension, the size of a tensor dimension carrying that target index
+                    out = got[0] if got else None
+                    (tname, tix), _occ = parse(text)
+                    if not (isinstance(out, S.Call) and out.func == "allocate_taco_structure" and len(out.args) == 3):
+                        problems.append("the kernel's output is not a structure freshly allocated by allocate_taco_structure(modes, dimensions, ordering)")
+                    else:
+                        ofmt = formats[tname]
+                        modes_, dims_, ord_ = out.args
+                        if tuple(modes_) != tuple(m_.attrs["c_int"] for m_ in ofmt.attrs["modes"]):
+                            problems.append("output allocated with modes other than the output format's")
+                        if tuple(ord_) != tuple(ofmt.attrs["ordering"]):
+                            problems.append("output allocated with an ordering other than the output format's")
+                        if len(dims_) != len(tix):
+                            problems.append("output allocated with the wrong number of dimensions")
+                        else:
+                            for d_, (ixn, sz) in enumerate(zip(tix, dims_)):
+                                cands = {find(f"{n}.dim{dd}") for n, dd in parts.get(ixn, [])}
+                                if not (isinstance(sz, S.Sym) and find(repr(sz)) in cands):
+                                    problems.append(f"output dimension {d_} (index {ixn}) is allocated with {sz!r}, which is not the size of a dimension carrying {ixn}")
                 elif kind == "raise":
                     if not differ:
                         problems.append(f"consistent arguments raise {val}")
